@@ -1,3 +1,3 @@
 import CobaVerif.Driver.Loop
--- stub: replaced when the C15 model exists
-def main : IO Unit := Coba.J.runLoop (fun _ => .error "C15 driver not implemented")
+import CobaVerif.Driver.C15
+def main : IO Unit := Coba.J.runLoop Coba.C15.Driver.handle
